@@ -2,7 +2,6 @@
 package props
 
 import (
-	"fmt"
 	"os"
 	"strings"
 
@@ -42,11 +41,25 @@ func NewWorld(era drive.Era, build func(b *drive.Builder)) (*World, error) {
 		if !out.Reached {
 			d.Close()
 			os.RemoveAll(w.Dir)
-			return nil, fmt.Errorf("world prefix did not sync: %s", out)
+			return nil, &WorldError{Out: out}
 		}
 	}
 	d.Close()
 	return w, nil
+}
+
+// WorldError is returned by NewWorld when the prefix chain itself cannot be synced.
+type WorldError struct{ Out drive.Outcome }
+
+func (e *WorldError) Error() string { return "world prefix did not sync: " + e.Out.String() }
+
+// GlobalBurn is the 2.0.2 global burn address.
+func GlobalBurn() factom.FAAddress {
+	a, err := factom.NewFAAddress("FA2BURNBABYBURNoooooooooooooooooooooooooooooooDGvNXy")
+	if err != nil {
+		panic(err)
+	}
+	return a
 }
 
 func MustWorld(era drive.Era, build func(b *drive.Builder)) *World {
